@@ -6,6 +6,7 @@ import (
 	"crypto/ed25519"
 	"encoding/json"
 	"filippo.io/age/armor"
+	"filippo.io/age/plugin"
 	"fmt"
 	"io"
 	"math/rand"
@@ -160,6 +161,20 @@ func (ks *keyset) text(cls, kind string, rng *rand.Rand) string {
 		k := key(0)
 		i := strings.LastIndex(k, "1")
 		return k[:i] + k[i+1:]
+	case "kelvin":
+		// a look-alike of K that lower-cases to k (U+212A KELVIN SIGN) in the data part of the key
+		k := key(0)
+		i := strings.LastIndex(k, "1") + 1
+		if kind == "ids" {
+			if j := strings.IndexByte(k[i:], 'K'); j >= 0 {
+				return k[:i+j] + "\u212a" + k[i+j+1:]
+			}
+			return k[:i] + "\u212a" + k[i+1:]
+		}
+		if j := strings.IndexByte(k[i:], 'k'); j >= 0 {
+			return k[:i+j] + "\u212a" + k[i+j+1:]
+		}
+		return k[:i] + "\u212a" + k[i+1:]
 	case "nul":
 		return key(0) + "\x00"
 	case "bom":
@@ -484,7 +499,7 @@ func gen(run *vk.Run, what, c string) []fcase {
 	return out
 }
 
-var badAll = []string{"case_data", "subst1", "truncated", "lead_ws", "trail_ws", "wrong_case", "other_kind", "two_keys", "ws_comment", "ws_only", "cr_only", "key_hash", "key_hash_c", "sep_lost", "sep_gone", "nul", "bom"}
+var badAll = []string{"kelvin", "case_data", "subst1", "truncated", "lead_ws", "trail_ws", "wrong_case", "other_kind", "two_keys", "ws_comment", "ws_only", "cr_only", "key_hash", "key_hash_c", "sep_lost", "sep_gone", "nul", "bom"}
 
 // Run is the C18 check.
 func Run(tier string) {
@@ -557,9 +572,61 @@ func Run(tier string) {
 		run.Distinct("cli-rcp:" + sig(&rc[i]))
 	})
 	run.Add("cli_recipient_files", len(pick))
+	cliIdentityOrder(run, ks, dir, ageBin)
 	run.Sample(map[string]interface{}{"generator": "clircp", "classes": sig(&rc[len(rc)/2])})
 	if run.Thorough() {
 		run.Exhaustive()
 	}
 	run.Finish()
+}
+
+// cliIdentityOrder: the keys of an identities file are used in file order, also across kinds. A plugin identity line
+// (its plugin a script that logs its start and finds no file key) stands before or after a native key that opens the
+// file: before it, the plugin is consulted first and so gets started; after it, the native key opens the file and the
+// plugin never runs.
+func cliIdentityOrder(run *vk.Run, ks *keyset, dir, ageBin string) {
+	wd := filepath.Join(dir, "order")
+	os.MkdirAll(filepath.Join(wd, "bin"), 0o755)
+	logf := filepath.Join(wd, "plugin.log")
+	script := "#!/bin/sh\necho started >> '" + logf + "'\nwhile IFS= read -r line; do [ \"$line\" = '-> done' ] && break; done\nIFS= read -r blank\nprintf -- '-> done\\n\\n'\n"
+	if err := os.WriteFile(filepath.Join(wd, "bin", "age-plugin-order"), []byte(script), 0o755); err != nil {
+		vk.Infra("%v", err)
+	}
+	pluginLine := plugin.EncodeIdentity("order", []byte("data"))
+	native := ks.ids[0]
+	var buf bytes.Buffer
+	w, err := age.Encrypt(&buf, native.Recipient())
+	if err != nil {
+		vk.Infra("%v", err)
+	}
+	w.Write([]byte("hello"))
+	w.Close()
+	os.WriteFile(filepath.Join(wd, "in.age"), buf.Bytes(), 0o600)
+	envv := []string{"PATH=" + filepath.Join(wd, "bin") + ":/usr/bin:/bin"}
+	for _, c := range []struct {
+		name    string
+		lines   []string
+		started bool
+	}{
+		{"plugin-then-native", []string{pluginLine, native.String()}, true},
+		{"native-then-plugin", []string{native.String(), pluginLine}, false},
+		{"comment-plugin-native", []string{"# c", pluginLine, "", native.String()}, true},
+	} {
+		os.Remove(logf)
+		os.WriteFile(filepath.Join(wd, "ids.txt"), []byte(strings.Join(c.lines, "\n")+"\n"), 0o600)
+		p := vk.RunProc(30*time.Second, wd, envv, []byte{}, ageBin, "-d", "-i", "ids.txt", "in.age")
+		run.Eval(1)
+		_, serr := os.Stat(logf)
+		started := serr == nil
+		sig := "cli-ids-order:" + c.name
+		if p.TimedOut {
+			vk.Infra("age -d with a plugin identity timed out")
+		}
+		if p.Exit != 0 || string(p.Stdout) != "hello" {
+			run.Violation("C18:wrong-keys:"+sig, fmt.Sprintf("identities file %s: exit %d, output %q, stderr %s", c.name, p.Exit, p.Stdout, p.Stderr), nil)
+		} else if started != c.started {
+			run.Violation("C18:wrong-keys:"+sig, fmt.Sprintf("identities file %s: the plugin of the plugin identity line was started: %v; in file order it is consulted %s the native key that opens the file", c.name, started, map[bool]string{true: "before", false: "after"}[c.started]), map[string]interface{}{"check": "C18.order", "case": c.name})
+		}
+		run.Distinct(sig)
+	}
 }
